@@ -895,3 +895,243 @@ func runC20EveryIssue(c *Ctx) {
 		}
 	}
 }
+
+// ---- C20.ONCE: every run step reaches the tool ----
+
+// stepCondJudge decides whether a condition on the way from VisitStep to the start of the tool is about the kind of
+// the step and its shell only. Anything else (the text of the script, other attributes of the step, the job, global
+// state) makes "which scripts are checked" depend on more than the property allows.
+type stepCondJudge struct {
+	p     *Prog
+	rule  string
+	sites map[*ssa.Function][]ssa.CallInstruction // the call sites on the chain, by callee
+	seen  map[ssa.Value]bool
+}
+
+// foreign: what the value depends on besides the step kind and the shell ("" when nothing).
+func (j *stepCondJudge) foreign(v ssa.Value, nilTested ssa.Value, depth int) string {
+	if v == nil || j.seen[v] {
+		return ""
+	}
+	j.seen[v] = true
+	if depth > 14 {
+		return "a value computed too deep to follow"
+	}
+	switch x := v.(type) {
+	case *ssa.Const, *ssa.Function, *ssa.Builtin:
+		return ""
+	case *ssa.Global:
+		return "the package variable " + x.Name()
+	case *ssa.FreeVar:
+		return "the captured variable " + x.Name()
+	case *ssa.Parameter:
+		fn := x.Parent()
+		if FuncName(fn) == "(*"+j.rule+").VisitStep" {
+			return ""
+		}
+		idx := -1
+		for i, q := range fn.Params {
+			if q == x {
+				idx = i
+			}
+		}
+		sites := j.sites[fn]
+		if len(sites) == 0 || idx < 0 {
+			return "the parameter " + x.Name() + " of " + fn.Name()
+		}
+		for _, s := range sites {
+			args := s.Common().Args
+			if idx >= len(args) {
+				return "the parameter " + x.Name() + " of " + fn.Name()
+			}
+			if why := j.foreign(args[idx], nil, depth+1); why != "" {
+				return why
+			}
+		}
+		return ""
+	case *ssa.UnOp:
+		if x.Op == token.MUL {
+			if fa, ok := x.X.(*ssa.FieldAddr); ok {
+				if why := j.fieldForeign(fieldAddrName(fa), fa.X, v == nilTested); why != "" {
+					return why
+				}
+				return j.foreign(fa.X, nil, depth+1)
+			}
+			if al, ok := x.X.(*ssa.Alloc); ok {
+				// a local variable: what was stored into it
+				for _, ref := range *al.Referrers() {
+					if st, ok := ref.(*ssa.Store); ok && st.Addr == ssa.Value(al) {
+						if why := j.foreign(st.Val, nil, depth+1); why != "" {
+							return why
+						}
+					}
+				}
+				return ""
+			}
+		}
+		return j.foreign(x.X, nil, depth+1)
+	case *ssa.Field:
+		f, base := fieldLoad(x)
+		if why := j.fieldForeign(f, base, false); why != "" {
+			return why
+		}
+		return j.foreign(x.X, nil, depth+1)
+	case *ssa.Call:
+		for _, a := range x.Call.Args {
+			if why := j.foreign(a, nil, depth+1); why != "" {
+				return why
+			}
+		}
+		if x.Call.IsInvoke() {
+			return j.foreign(x.Call.Value, nil, depth+1)
+		}
+		g := staticCallee(&x.Call)
+		if g == nil {
+			return "the result of a call through a function value at " + j.p.Pos(x.Pos())
+		}
+		if !inModule(g) || g.Blocks == nil {
+			return ""
+		}
+		// what the function reads besides its arguments
+		for h := range j.p.reachable(g) {
+			if !inModule(h) || h.Blocks == nil {
+				continue
+			}
+			why := ""
+			eachInstr(h, func(_ *ssa.BasicBlock, _ int, in ssa.Instruction) {
+				switch y := in.(type) {
+				case *ssa.FieldAddr:
+					if w := j.fieldForeign(fieldAddrName(y), y.X, true); w != "" && why == "" {
+						why = w + " (read in " + h.Name() + ")"
+					}
+				case *ssa.UnOp:
+					if gl, ok := y.X.(*ssa.Global); ok && y.Op == token.MUL && why == "" {
+						if _, isFn := gl.Type().Underlying().(*types.Pointer).Elem().Underlying().(*types.Signature); !isFn {
+							why = "the package variable " + gl.Name() + " (read in " + h.Name() + ")"
+						}
+					}
+				}
+			})
+			if why != "" {
+				return why
+			}
+		}
+		return ""
+	case ssa.Instruction:
+		for _, op := range x.Operands(nil) {
+			if *op == nil {
+				continue
+			}
+			if why := j.foreign(*op, nil, depth+1); why != "" {
+				return why
+			}
+		}
+	}
+	return ""
+}
+
+// fieldForeign: reading field f (named Type.field) of base says something beyond step kind and shell. presenceOnly:
+// the read is only a test for nil, or happens inside a function whose arguments were judged already.
+func (j *stepCondJudge) fieldForeign(f string, base ssa.Value, presenceOnly bool) string {
+	owner := f
+	if i := strings.Index(f, "."); i >= 0 {
+		owner = f[:i]
+	}
+	switch {
+	case f == "Step.Exec", f == "ExecRun.Shell":
+		return ""
+	case f == "ExecRun.Run":
+		if presenceOnly {
+			return ""
+		}
+		return "the script of the step (ExecRun.Run)"
+	case owner == j.rule, owner == "RuleBase":
+		return ""
+	case owner == "String":
+		// the text of a scalar: of the shell when it is read from ExecRun.Shell or inside a function judged by its arguments
+		if presenceOnly {
+			return ""
+		}
+		if bf, _ := fieldLoad(base); bf == "ExecRun.Shell" {
+			return ""
+		}
+		bf, _ := fieldLoad(base)
+		if bf == "" {
+			bf = "a scalar"
+		}
+		return "the text of " + bf
+	case owner == "Step", owner == "ExecRun", owner == "ExecAction", owner == "Job", owner == "Workflow":
+		return "the field " + f
+	}
+	if presenceOnly {
+		return ""
+	}
+	return "the field " + f
+}
+
+// c20EveryRunStep: every condition under which a call on the chain from VisitStep to the start of the tool is made
+// depends on the kind of the step and its shell only.
+func c20EveryRunStep(c *Ctx, rule string, vs *ssa.Function) {
+	p := c.P
+	construct := "(*" + rule + ").VisitStep|every run step of its shell reaches the tool"
+	// the chain
+	sites := map[*ssa.Function][]ssa.CallInstruction{}
+	var chain []ssa.CallInstruction
+	seen := map[*ssa.Function]bool{}
+	var visit func(fn *ssa.Function, depth int)
+	visit = func(fn *ssa.Function, depth int) {
+		if seen[fn] || fn.Blocks == nil || depth > 5 {
+			return
+		}
+		seen[fn] = true
+		eachInstr(fn, func(_ *ssa.BasicBlock, _ int, in ssa.Instruction) {
+			call, ok := in.(ssa.CallInstruction)
+			if !ok {
+				return
+			}
+			g := staticCallee(call.Common())
+			if g == nil || !inPkgName(g) {
+				return
+			}
+			isRun := FuncName(g) == "(*externalCommand).run"
+			if !isRun && !reachesRun(p, g) {
+				return
+			}
+			chain = append(chain, call)
+			sites[g] = append(sites[g], call)
+			if !isRun {
+				visit(g, depth+1)
+			}
+		})
+	}
+	visit(vs, 0)
+	if len(chain) == 0 {
+		return // reported by the at-most-once clause
+	}
+	var bad []string
+	for _, call := range chain {
+		for ifi, outcome := range controllingConds(call.Block()) {
+			_ = outcome
+			j := &stepCondJudge{p: p, rule: rule, sites: sites, seen: map[ssa.Value]bool{}}
+			var nilTested ssa.Value
+			if v, _, ok := nilTest(ifi); ok {
+				nilTested = v
+			}
+			var why string
+			if nilTested != nil {
+				why = j.foreign(nilTested, nilTested, 0)
+			} else {
+				why = j.foreign(ifi.Cond, nil, 0)
+			}
+			if why != "" {
+				bad = append(bad, "the call at "+p.Pos(call.Pos())+" depends on "+why+" (condition at "+p.Pos(branchPos(ifi.Block()))+")")
+			}
+		}
+	}
+	sort.Strings(bad)
+	if len(bad) == 0 {
+		c.ok(construct, vs.Pos(), "the calls leading to the tool depend on the kind of the step and on its shell only")
+	} else {
+		c.bad(construct, vs.Pos(), strings.Join(bad, "; ")+": some run: scripts of a checked shell are never passed to the tool")
+	}
+}
